@@ -53,7 +53,7 @@ def thresholds(tier):
 
 
 def cases(tier, seed):
-    n = 6000 if tier == "thorough" else 192
+    n = 6000 if tier == "thorough" else 480
     return [{"first": i, "n": BATCH, "seed": seed} for i in range(0, n, BATCH)]
 
 
@@ -189,6 +189,16 @@ def one_program(seed, i):
                 results["model"] = (st if st != "ok" else "ok", o)
             hit("compared_inputs")
             res.setdefault("_ctx", {})[(variant, k)] = (vals, dict(attrs), dict(denote))
+            if "eager" not in results and _any_differs(results):
+                # arbitrate with an eager run before judging (a 1-vs-1 split names nobody)
+                hit("eager_runs")
+                hit("eager_arbitrations")
+                try:
+                    out = f(*vals, **attrs)
+                    out = out if isinstance(out, tuple) else (out,)
+                    results["eager"] = ("ok", [runner.as_np(o) for o in out])
+                except Exception as e:
+                    results["eager"] = ("fail", f"{type(e).__name__}: {str(e)[:600]}")
             _judge(results, p, res, hit, variant, k)
     _minimise(res, p, seed, i, hit)
     res.pop("_ctx", None)
@@ -236,6 +246,21 @@ def _minimise(res, p, seed, i, hit):
 
 import re
 
+
+def cmp_outputs(ref, out):
+    """dtype-aware comparison: float64 is held to 1e-6 (ORT kernels for double partly compute through float32 constants),
+    float32 to 6.4e-3 (programs chain up to ~40 ops)."""
+    if len(ref) != len(out):
+        return f"output count {len(ref)} vs {len(out)}"
+    for i, (a, b) in enumerate(zip(ref, out)):
+        a = np.asarray(a)
+        kw = {"rtol": 1e-6, "atol": 1e-9} if a.dtype == np.float64 else {}
+        d = compare.compare_value(a, b, scale=64.0, **kw)
+        if d:
+            return f"out[{i}]: {d}"
+    return None
+
+
 _ERRS = [
     ("missing_opset_import", r"No opset registered for domain|No opset import for domain"),
     ("missing_input", r"Missing Input"),
@@ -258,6 +283,18 @@ def errsig(msg):
     return re.sub(r"[^A-Za-z]+", "_", m)[:50]
 
 
+def _any_differs(results):
+    ref = results["numpy"][1]
+    for w in ("function", "model"):
+        if w in results:
+            st, o = results[w]
+            if st == "not_implemented":
+                continue
+            if st != "ok" or cmp_outputs(ref, o) is not None:
+                return True
+    return False
+
+
 def _judge(results, p, res, hit, variant, k):
     ref = results["numpy"][1]
     agree, differ = ["numpy"], {}
@@ -271,7 +308,7 @@ def _judge(results, p, res, hit, variant, k):
         if st != "ok":
             differ[w] = ("fails", str(o)[:600])
             continue
-        d = compare.compare_outputs(ref, o, scale=64.0)
+        d = cmp_outputs(ref, o)
         if d is None:
             agree.append(w)
         else:
@@ -285,6 +322,9 @@ def _judge(results, p, res, hit, variant, k):
         return
     feat = next((f for f in PRIORITY if f in p.features), "straight_line")
     others = [w for w in differ]
+    if len(agree) + len(differ) < 3:
+        hit("split_inconclusive")
+        return
     if len(agree) >= 2 or len(differ) == 1:
         # numpy reading confirmed by at least one execution form (or a single odd one out)
         for w, (kind, d) in differ.items():
@@ -296,7 +336,7 @@ def _judge(results, p, res, hit, variant, k):
     # every execution form disagrees with the numpy reading
     forms = {w: results[w][1] for w in differ if differ[w][0] != "fails"}
     ws = list(forms)
-    if len(ws) >= 2 and all(compare.compare_outputs(forms[ws[0]], forms[w], scale=64.0) is None for w in ws[1:]) and len(ws) == len(differ):
+    if len(ws) >= 2 and all(cmp_outputs(forms[ws[0]], forms[w]) is None for w in ws[1:]) and len(ws) == len(differ):
         # all forms agree with each other and differ from numpy: the numpy reading is the odd one out
         kind, d = differ[ws[0]]
         res["viol"].append({"key": f"odd=numpy;kind={kind};feat={feat}",
@@ -481,7 +521,7 @@ def classify_source(src, p, vals, attrs, denote, want_odd, want_kind, tag):
         st, o = "fail", str(e)
     if st != "ok":
         return want_kind.startswith("fails") and errsig(str(o)) == want_kind.split(":", 1)[-1]
-    d = compare.compare_outputs(ref, o, scale=64.0)
+    d = cmp_outputs(ref, o)
     if d is None:
         return False
     kind = "value"
